@@ -77,6 +77,58 @@ func arityFilter(w *ecs.World, n int) func(r *tres) {
 	}
 }
 
+// relArityFilter builds FilterN[..., childOf] (relation component last) for n = 1..8 and returns a function
+// that uses the filter once for a Batch with a per-call target (leaving spare capacity in the filter's
+// relation slice) and one that runs a query with a per-query target.
+func relArityFilter(w *ecs.World, n int) (batch func(extra ecs.Entity), query func(target ecs.Entity, r *tres)) {
+	collect := func(next func() bool, ent func() ecs.Entity, r *tres) {
+		k := 0
+		for next() {
+			r.visited = append(r.visited, ent())
+			k++
+			if k > maxIter {
+				r.err = "runaway iteration"
+				return
+			}
+		}
+	}
+	i := n - 1
+	switch n {
+	case 1:
+		f := ecs.NewFilter1[childOf](w)
+		return func(x ecs.Entity) { w.RemoveEntities(f.Batch(ecs.RelIdx(i, x)), nil) },
+			func(t ecs.Entity, r *tres) { q := f.Query(ecs.RelIdx(i, t)); collect(q.Next, q.Entity, r) }
+	case 2:
+		f := ecs.NewFilter2[pos, childOf](w)
+		return func(x ecs.Entity) { w.RemoveEntities(f.Batch(ecs.RelIdx(i, x)), nil) },
+			func(t ecs.Entity, r *tres) { q := f.Query(ecs.RelIdx(i, t)); collect(q.Next, q.Entity, r) }
+	case 3:
+		f := ecs.NewFilter3[pos, vel, childOf](w)
+		return func(x ecs.Entity) { w.RemoveEntities(f.Batch(ecs.RelIdx(i, x)), nil) },
+			func(t ecs.Entity, r *tres) { q := f.Query(ecs.RelIdx(i, t)); collect(q.Next, q.Entity, r) }
+	case 4:
+		f := ecs.NewFilter4[pos, vel, tag, childOf](w)
+		return func(x ecs.Entity) { w.RemoveEntities(f.Batch(ecs.RelIdx(i, x)), nil) },
+			func(t ecs.Entity, r *tres) { q := f.Query(ecs.RelIdx(i, t)); collect(q.Next, q.Entity, r) }
+	case 5:
+		f := ecs.NewFilter5[pos, vel, tag, c4, childOf](w)
+		return func(x ecs.Entity) { w.RemoveEntities(f.Batch(ecs.RelIdx(i, x)), nil) },
+			func(t ecs.Entity, r *tres) { q := f.Query(ecs.RelIdx(i, t)); collect(q.Next, q.Entity, r) }
+	case 6:
+		f := ecs.NewFilter6[pos, vel, tag, c4, c5, childOf](w)
+		return func(x ecs.Entity) { w.RemoveEntities(f.Batch(ecs.RelIdx(i, x)), nil) },
+			func(t ecs.Entity, r *tres) { q := f.Query(ecs.RelIdx(i, t)); collect(q.Next, q.Entity, r) }
+	case 7:
+		f := ecs.NewFilter7[pos, vel, tag, c4, c5, c6, childOf](w)
+		return func(x ecs.Entity) { w.RemoveEntities(f.Batch(ecs.RelIdx(i, x)), nil) },
+			func(t ecs.Entity, r *tres) { q := f.Query(ecs.RelIdx(i, t)); collect(q.Next, q.Entity, r) }
+	default:
+		f := ecs.NewFilter8[pos, vel, tag, c4, c5, c6, c7, childOf](w)
+		return func(x ecs.Entity) { w.RemoveEntities(f.Batch(ecs.RelIdx(i, x)), nil) },
+			func(t ecs.Entity, r *tres) { q := f.Query(ecs.RelIdx(i, t)); collect(q.Next, q.Entity, r) }
+	}
+}
+
 // result of one thread
 type tres struct {
 	visited []ecs.Entity
@@ -322,6 +374,35 @@ func scenarios() []scenario {
 		}
 		return bodies, exp, finalCheck(w, 0)
 	}})
+
+	// --- the same for every generated filter arity 1..8 (relation component last)
+	for n := 1; n <= 8; n++ {
+		n := n
+		out = append(out, scenario{name: fmt.Sprintf("shared-relation-targets-after-batch-arity%d/2thr", n), threads: 2, build: func() ([]func(*tres), []tres, func() string) {
+			w := ecs.NewWorld(4)
+			batch, query := relArityFilter(w, n)
+			rel := ecs.ComponentID[childOf](w)
+			ids := []ecs.ID{ecs.ComponentID[pos](w), ecs.ComponentID[vel](w), ecs.ComponentID[tag](w), ecs.ComponentID[c4](w),
+				ecs.ComponentID[c5](w), ecs.ComponentID[c6](w), ecs.ComponentID[c7](w), rel}
+			parents := []ecs.Entity{w.NewEntity(), w.NewEntity()}
+			children := make([][]ecs.Entity, 2)
+			for p := 0; p < 2; p++ {
+				for k := 0; k < 2; k++ {
+					children[p] = append(children[p], w.Unsafe().NewEntityRel(ids, ecs.RelID(rel, parents[p])))
+				}
+			}
+			w.Unsafe().NewEntity(ids[:7]...)
+			batch(w.NewEntity()) // matches nothing
+			var bodies []func(*tres)
+			var exp []tres
+			for i := 0; i < 2; i++ {
+				p := i
+				bodies = append(bodies, func(r *tres) { query(parents[p], r) })
+				exp = append(exp, tres{visited: children[p]})
+			}
+			return bodies, exp, finalCheck(w, 0)
+		}})
+	}
 
 	// --- one relation argument slice (type based Rel[C]) shared by all goroutines
 	out = append(out, scenario{name: "shared-relation-argument/2thr", threads: 2, build: func() ([]func(*tres), []tres, func() string) {
